@@ -624,3 +624,38 @@ impl Bnf {
         (0..n).map(|i| starts[i][i]).collect()
     }
 }
+
+impl Grammar {
+    /// consistently rename non-terminals
+    pub fn rename_nts(&self, f: &dyn Fn(&str) -> String) -> Grammar {
+        fn ren(alts: &Alts, f: &dyn Fn(&str) -> String) -> Alts {
+            alts.iter()
+                .map(|a| {
+                    a.iter()
+                        .map(|x| match x {
+                            Factor::N(n, c) => Factor::N(f(n), c.clone()),
+                            Factor::T(t, c) => Factor::T(*t, c.clone()),
+                            Factor::Grp(a) => Factor::Grp(ren(a, f)),
+                            Factor::Opt(a) => Factor::Opt(ren(a, f)),
+                            Factor::Rep(a) => Factor::Rep(ren(a, f)),
+                        })
+                        .collect()
+                })
+                .collect()
+        }
+        let mut g = self.clone();
+        g.start = f(&self.start);
+        for r in g.rules.iter_mut() {
+            r.name = f(&r.name);
+            r.alts = ren(&r.alts, f);
+        }
+        for st in g.states.iter_mut() {
+            st.skip = st.skip.iter().map(|n| f(n)).collect();
+            for (ids, _) in st.on.iter_mut() {
+                *ids = ids.iter().map(|n| f(n)).collect();
+            }
+        }
+        g.nt_types = g.nt_types.iter().map(|(n, t)| (f(n), t.clone())).collect();
+        g
+    }
+}
